@@ -74,6 +74,8 @@ def show_type(t):
             return "tuple(%s)" % ",".join(show_type(x) for x in t[1])
         if t[0] == "dict":
             return "dict:%s" % t[1]
+        if t[0] == "obj":
+            return "obj:%s" % t[1]
     return t
 
 
@@ -83,6 +85,8 @@ def parse_type(s):
         return s
     if s.startswith("dict:") and re.match(r"^[A-Za-z][A-Za-z0-9_]*$", s[5:]):
         return ("dict", s[5:])        # a dict with the fixed key set SPEC gives under "dicts" (a Coq record)
+    if s.startswith("obj:") and re.match(r"^[A-Za-z][A-Za-z0-9_]*$", s[4:]):
+        return ("obj", s[4:])         # an object of which only the attributes SPEC lists under "objects" are read (a Coq record)
     if s.startswith("list[") and s.endswith("]"):
         return ("list", parse_type(s[5:-1]))
     def split_top(args):
@@ -125,7 +129,7 @@ def coq_type(t):
         return " -> ".join([paren_type(a) for a in t[1]] + ["gres %s" % paren_type(t[2])])
     if t[0] == "tuple":
         return " * ".join(paren_type(a) for a in t[1])
-    if t[0] == "dict":
+    if t[0] in ("dict", "obj"):
         return "%s T" % t[1]
     raise Untranslatable("bad type %r" % (t,))
 
@@ -173,6 +177,8 @@ def assigned_names(stmts):
         elif isinstance(t, (ast.Tuple, ast.List)):
             for e in t.elts:
                 target(e)
+        elif isinstance(t, ast.Attribute) and isinstance(t.value, ast.Name):
+            pass                     # x.attr = e does not bind a name (only understood at the top level of a function: set_attribute)
         else:
             fail(t, "assignment target not understood")
 
@@ -276,12 +282,54 @@ class Ctx(object):
         self.ret, self.fall, self.rtype = ret, fall, rtype
 
 
+YIELDED = "py_yielded"
+
+
+def degenerate(fdef):
+    """a generator function as the function that returns the list of the values it yields (what list(f(...)) is, for a generator that is
+    run to its end):  `yield e` (a statement) becomes py_yielded.append(e), the function starts with py_yielded = [] and ends with
+    return py_yielded.  Anything else with yield (yield as an expression, yield from, return inside) is refused."""
+    import copy
+    f = copy.deepcopy(fdef)
+    if any(isinstance(n, ast.Name) and n.id == YIELDED for n in ast.walk(f)) or any(isinstance(a, ast.arg) and a.arg == YIELDED for a in ast.walk(f)):
+        fail(fdef, "the name %s is used by the function" % YIELDED)
+    if contains(f.body, (ast.Return, ast.YieldFrom, ast.FunctionDef, ast.Lambda)):
+        fail(fdef, "generator: return / yield from / nested functions are not understood")
+    count = [0]
+
+    class Tr(ast.NodeTransformer):
+        def visit_Expr(self, node):
+            if isinstance(node.value, ast.Yield):
+                if node.value.value is None:
+                    fail(node, "yield without a value")
+                count[0] += 1
+                new = ast.parse("%s.append(0)" % YIELDED).body[0]
+                new.value.args = [node.value.value]
+                return ast.fix_missing_locations(ast.copy_location(new, node))
+            return node
+    f = Tr().visit(f)
+    if any(isinstance(n, (ast.Yield, ast.YieldFrom)) for n in ast.walk(f)):
+        fail(fdef, "yield used as an expression")
+    if count[0] == 0:
+        fail(fdef, "SPEC says generator, but the function does not yield")
+    first = 1 if f.body and is_docstring(f.body[0]) else 0
+    init = ast.copy_location(ast.parse("%s = []" % YIELDED).body[0], fdef)
+    ret = ast.copy_location(ast.parse("return %s" % YIELDED).body[0], fdef)
+    f.body = f.body[:first] + [init] + f.body[first:] + [ret]
+    return ast.fix_missing_locations(f)
+
+
 class FunTrans(object):
     def __init__(self, modtrans, fspec, fdef):
+        if fspec.get("generator", False):
+            fdef = degenerate(fdef)
+        elif any(isinstance(n, (ast.Yield, ast.YieldFrom)) for n in ast.walk(fdef)):
+            fail(fdef, "a generator function (SPEC does not say generator)")
         self.m, self.spec, self.fdef = modtrans, fspec, fdef
         self.counter = 0
         self.fuels = list(fspec.get("fuel", []))
         self.fuels_used = set()
+        self.fuel_params = []
         self.params = []          # (python name, type)
         self.kwparams = {}        # name -> type
         self.alias_ok = fspec.get("alias_ok", False)
@@ -317,7 +365,11 @@ class FunTrans(object):
     def signature(self):
         f, sp = self.fdef, self.spec
         a = f.args
-        if a.vararg or a.kwonlyargs or getattr(a, "posonlyargs", []):
+        if a.kwonlyargs or getattr(a, "posonlyargs", []):
+            fail(f, "unsupported argument kinds")
+        if a.vararg and (sp.get("vararg") != a.vararg.arg or a.args or a.defaults):
+            # f(*args) only: the tuple of the positional arguments is ONE list parameter (SPEC "vararg": its name; its type under
+            # "params"); it is read-only like any argument.  Translated code cannot call such a function.
             fail(f, "unsupported argument kinds")
         for d in f.decorator_list:
             dn = d.func if isinstance(d, ast.Call) else d
@@ -325,6 +377,8 @@ class FunTrans(object):
             if name not in IGNORED_DECORATORS:
                 fail(f, "unknown decorator")
         allnames = [x.arg for x in a.args]
+        if a.vararg:
+            allnames = [a.vararg.arg]
         if self.cls is not None:
             if not allnames:
                 fail(f, "a method without a self parameter")
@@ -341,11 +395,18 @@ class FunTrans(object):
                 fail(f, "static parameter %s is not a parameter" % n)
             if n in assigned_names(f.body):
                 fail(f, "static parameter %s is assigned in the body" % n)
+        # "none_params" (set by a "none_variants" entry of SPEC): this variant is the function called with None for these
+        # parameters (their default); they are not parameters of the generated function, `p is None` is true until p is assigned
+        self.none_params = list(sp.get("none_params", []))
+        for n in self.none_params:
+            if n not in allnames or n in self.static_vals:
+                fail(f, "none parameter %s is not a parameter" % n)
         names = [n for n in allnames if n not in self.static_vals]
         if names != list(sp["params"].keys()) and set(names) != set(sp["params"].keys()):
             fail(f, "parameters %s differ from the spec %s" % (names, list(sp["params"].keys())))
         for n in names:
-            self.params.append((n, parse_type(sp["params"][n])))
+            if n not in self.none_params:
+                self.params.append((n, parse_type(sp["params"][n])))
         ndef = len(a.defaults)
         self.defaults = {}
         self.static_defaults = {}
@@ -354,8 +415,19 @@ class FunTrans(object):
                 if not (isinstance(d, ast.Constant) and isinstance(d.value, bool)):
                     fail(f, "the default of a static parameter must be True / False")
                 self.static_defaults[n] = d.value
+            elif isinstance(d, ast.Constant) and d.value is None:
+                pass        # p=None for a parameter whose SPEC type cannot be None: no default here, callers must give it
             else:
                 self.defaults[n] = d
+        for n in self.none_params:
+            if n in self.defaults or n not in allnames[len(allnames) - ndef:]:
+                fail(f, "the default of the none parameter %s is not None" % n)
+        # "fuel_params": extra int parameters of the GENERATED function (no counterpart in the source) that the fuel expressions of while
+        # loops may use, for loops whose number of passes is not bounded by an int expression of the source (linalg.frange)
+        self.fuel_params = list(sp.get("fuel_params", []))
+        for n in self.fuel_params:
+            if n in allnames or n in assigned_names(f.body) or not re.match(r"^py_[a-z_]+$", n):
+                fail(f, "fuel parameter %s: must be a fresh name py_..." % n)
         kws = sp.get("kwargs", {})
         if a.kwarg is None and kws:
             fail(f, "spec lists keyword arguments but the function has no **kwargs")
@@ -419,6 +491,8 @@ class FunTrans(object):
     def e_Name(self, node, env):
         if node.id in self.static_vals and node.id not in env:
             return [], ("true" if self.static_vals[node.id] else "false"), "bool"
+        if node.id in env and isinstance(env[node.id], tuple) and env[node.id][0] == "building":
+            fail(node, "an object under construction can only be assigned attributes and returned")
         if node.id in env:
             if self.local_fns.get(node.id, {}).get("owned"):
                 fail(node, "a nested function that updates its argument in place may only be used in reduce(f, xs, fresh)")
@@ -444,7 +518,41 @@ class FunTrans(object):
         sa = self.selfattr(node, env)
         if sa is not None:
             return [], sa[0], sa[1]
+        if isinstance(node.ctx, ast.Load):
+            # x.attr on an object-typed value (SPEC "objects": the attributes that are read, with their types): the projection of
+            # the record.  Trusted reading: reading the attribute has no effect and returns the value of that field.
+            probe = None
+            if not (isinstance(node.value, ast.Name) and node.value.id not in env):
+                b, x, t = self.expr(node.value, env)
+                t = resolve(t)
+                if isinstance(t, tuple) and t[0] == "obj":
+                    fields = self.obj_fields(t[1], node)
+                    if node.attr not in fields:
+                        fail(node, "the attribute %r is not in the spec of the object type %s" % (node.attr, t[1]))
+                    return b, "(%s_%s %s)" % (t[1], node.attr, x), parse_type(fields[node.attr])
+            # module.function as a value (kwargs.get('find_span_func', helpers.find_span_linear))
+            fn = self.function_ref(node, env)
+            if fn is not None:
+                return [], "(%s K)" % fn["coqname"], fn["fntype"]
         fail(node, "attribute access not understood")
+
+    def function_ref(self, node, env):
+        """a translated function named as a value (f or module.f), usable as such (no static / abstract / infinity parameters)"""
+        fn = None
+        if isinstance(node, ast.Name) and node.id not in env:
+            fn = self.m.lookup_function(node.id)
+        elif isinstance(node, ast.Attribute) and isinstance(node.value, ast.Name) and node.value.id not in env:
+            fn = self.m.lookup_module_function(node.value.id, node.attr)
+        if fn is not None and (fn.get("infinity") or fn.get("variants") or fn.get("abstract") or fn.get("tvariants")
+                               or fn.get("selfattrs") or fn.get("fuel_params")):
+            fail(node, "a function with infinity / static / abstract parameters used as a value")
+        return fn
+
+    def obj_fields(self, oname, node):
+        d = self.m.spec.get("objects", {}).get(oname)
+        if d is None:
+            fail(node, "the object type %s is not in the spec (objects)" % oname)
+        return d
 
     def dict_fields(self, dname, node):
         d = self.m.spec.get("dicts", {}).get(dname)
@@ -513,6 +621,9 @@ class FunTrans(object):
                 if isinstance(node.right, ast.Constant) and isinstance(node.right.value, int) and node.right.value > 0:
                     return b, "(%s mod %s)" % (l, r), "int"     # Z.modulo has the sign of the divisor, like Python
             fail(node, "integer operator %s not understood" % op)
+        if op == "Pow" and tl == "float" and isinstance(node.right, ast.Constant) and type(node.right.value) is int \
+                and node.right.value == 2:
+            return b, "(omul K %s %s)" % (l, l), "float"        # x ** 2 = x * x (rounding is not modelled)
         if "float" in (tl, tr):
             if "ratio" in (tl, tr):
                 # an exact rational (int / int) next to a float: injected into the scalars, as float(a / b) is
@@ -570,10 +681,24 @@ class FunTrans(object):
         # `x is None` / `x is not None` on a value whose spec type cannot be None
         if len(node.ops) == 1 and isinstance(node.ops[0], (ast.Is, ast.IsNot)) and \
                 isinstance(node.comparators[0], ast.Constant) and node.comparators[0].value is None:
+            if self.holds_none(node.left, env):
+                return [], ("true" if isinstance(node.ops[0], ast.Is) else "false"), "bool"
             b, x, t = self.expr(node.left, env)
             return b, ("false" if isinstance(node.ops[0], ast.Is) else "true"), "bool"
         b, l, tl = self.expr(node.left, env)
         return self.compare_chain(b, l, tl, list(node.ops), list(node.comparators), env, node)
+
+    def holds_none(self, node, env):
+        """a parameter this variant of the function is called with None for ("none_params"), not assigned so far"""
+        return isinstance(node, ast.Name) and node.id in getattr(self, "none_params", ()) and node.id not in env
+
+    def static_none_test(self, test, env):
+        """`p is None` / `p is not None` for such a parameter -> its truth value, else None"""
+        if isinstance(test, ast.Compare) and len(test.ops) == 1 and isinstance(test.ops[0], (ast.Is, ast.IsNot)) \
+                and isinstance(test.comparators[0], ast.Constant) and test.comparators[0].value is None \
+                and self.holds_none(test.left, env):
+            return isinstance(test.ops[0], ast.Is)
+        return None
 
     def compare_chain(self, b, l, tl, ops, comps, env, node):
         br, r, tr = self.expr(comps[0], env)
@@ -792,8 +917,12 @@ class FunTrans(object):
         b, src, et = self.iter_source(g.iter, env)
         pat, env2 = self.bind_target(g.target, et, env)
         save = self.counter
-        be, x, t = self.expr(node.elt, env2)
-        self.no_alias(node.elt, t)
+        if isinstance(node.elt, ast.Tuple) and not node.elt.elts:
+            # [() for _ in range(n)]: slots that are overwritten later; the empty tuple is the empty sequence []
+            be, x, t = [], "[]", ("list", TVar())
+        else:
+            be, x, t = self.expr(node.elt, env2)
+            self.no_alias(node.elt, t)
         if not be:
             return b, "(map (fun %s => %s) %s)" % (pat, x, src), ("list", t)
         v = self.fresh()
@@ -810,6 +939,14 @@ class FunTrans(object):
             if len(node.args) != 2 or node.keywords or not isinstance(node.args[0], ast.Constant):
                 fail(node, "kwargs.get form")
             key = node.args[0].value
+            if key in self.spec.get("static_kwargs", {}):
+                # this generated function is the specialisation of the source to that value of the keyword (a bool flag)
+                val = self.spec["static_kwargs"][key]
+                d = node.args[1]
+                if not (isinstance(val, bool) and isinstance(d, ast.Constant) and isinstance(d.value, bool)):
+                    fail(node, "a static keyword and its default must be True / False")
+                self.static_kw_read = getattr(self, "static_kw_read", set()) | {key}
+                return [], ("true" if val else "false"), "bool"
             if key not in self.kwparams:
                 fail(node, "keyword argument %r is not in the spec" % (key,))
             bd = self.record_kwdefault(key, node.args[1], env)
@@ -820,6 +957,9 @@ class FunTrans(object):
             if isinstance(f, ast.Attribute) and isinstance(f.value, ast.Name) and f.value.id not in env \
                     and f.value.id in self.m.imported_mods:
                 cname = "%s.%s" % (self.m.imported_mods[f.value.id], f.attr)
+            elif isinstance(f, ast.Attribute) and isinstance(f.value, ast.Name) and f.value.id not in env \
+                    and f.value.id == "math" and "math" in self.m.plain_imports:
+                cname = "math.%s" % f.attr          # math.sqrt left uninterpreted
             if cname in ab:
                 # a callee SPEC leaves uninterpreted: it is a function PARAMETER of the generated function (the tie theorem
                 # holds for every such function)
@@ -912,6 +1052,8 @@ class FunTrans(object):
 
     def call_translated(self, fn, node, env, prefix=()):
         b, xs = [], []
+        if fn.get("vararg"):
+            fail(node, "call of a function with *args (not supported)")
         allp = fn.get("all_params", [p for p, _ in fn["params"]])
         statics = fn.get("static", [])
         given_all = {}
@@ -933,8 +1075,14 @@ class FunTrans(object):
             for sp_ in statics:
                 if sp_ in given_all:
                     a = given_all.pop(sp_)
+                    if isinstance(a, ast.Name) and a.id in env and a.id in self.static_locals:
+                        a = ast.Constant(value=self.static_locals[a.id])      # a flag that certainly holds this literal here
+                    elif isinstance(a, ast.Name) and a.id not in env and a.id in self.static_vals:
+                        a = ast.Constant(value=self.static_vals[a.id])        # the caller's own static parameter
                     if not (isinstance(a, ast.Constant) and isinstance(a.value, bool)):
                         fail(node, "the static argument %s must be the literal True / False" % sp_)
+                    if tuple(key + [a.value]) not in [k[:len(key) + 1] for k in fn["variants"]]:
+                        fail(node, "the callee is not translated for %s = %s" % (sp_, a.value))
                     key.append(a.value)
                 elif sp_ in fn["static_defaults"]:
                     key.append(fn["static_defaults"][sp_])
@@ -997,12 +1145,24 @@ class FunTrans(object):
                 fail(node, "keyword argument %s has a computed default: give it explicitly" % k)
             else:
                 xs.append("(%s__default_%s K)" % (fn["coqname"], k))
-        if fn.get("abstract"):
+        for cname in fn.get("abstract_cnames", []):
+            # an uninterpreted callee of the callee (linalg.point_distance): it must be the same parameter of this function
+            mine = self.spec.get("abstract_calls", {}).get(cname)
+            if mine is None or mine != fn["abstract_spec"][cname]:
+                fail(node, "call of a function with the abstract callee %s, which is not an abstract callee of this function" % cname)
+            self.abstract_used.add(cname)
+        if fn.get("abstract") and len(fn.get("abstract_cnames", [])) != len(fn["abstract"]):
             fail(node, "call of a function with abstract callees (not supported)")
         if fn.get("infinity"):
             if not self.spec.get("infinity_params", False):
                 fail(node, "call of a function with infinity parameters from one without")
             xs += ["py_inf", "py_ninf"]
+        for n in fn.get("fuel_params", []):
+            # the callee's fuel parameter is the caller's parameter of the same name
+            if n not in self.fuel_params:
+                fail(node, "call of a function with the fuel parameter %s, which is not a fuel parameter of this function" % n)
+            xs.append(n)
+        xs += list(fn.get("abstract", []))
         v = self.fresh()
         self.callee_raises |= set(fn.get("raises", ()))
         return b + ["do %s <- %s K %s ;;" % (v, fn["coqname"], " ".join(list(prefix) + xs))], v, fn["rtype"]
@@ -1053,6 +1213,15 @@ class FunTrans(object):
                 literal = True
             except Exception:
                 literal = False
+            if not literal and isinstance(t, tuple) and t[0] == "fn" and self.function_ref(dnode, env) is not None:
+                # the default is a translated function (find_span_func = helpers.find_span_linear): a constant
+                b, txt, td = self.expr(dnode, {})
+                if resolve(td) != t:
+                    fail(dnode, "the default function of keyword %s has another type than the spec gives" % key)
+                if key in self.kwdefaults and self.kwdefaults[key] != txt:
+                    fail(dnode, "two different defaults for keyword %s" % key)
+                self.kwdefaults[key] = txt
+                return []
             if not literal:
                 # Python evaluates the default expression before the lookup: keep its effects (it may raise), drop its value;
                 # such a keyword has no default definition and must be given explicitly by translated callers
@@ -1141,6 +1310,14 @@ class FunTrans(object):
         fail(node, "round() of a %s" % show_type(t))
 
     def minmax(self, node, env, zf, of):
+        if len(node.args) == 1 and isinstance(node.args[0], ast.Starred) and not node.keywords:
+            # min(*l) for a list of floats: the first minimal element (TypeError for fewer than two elements: min() of nothing,
+            # min(x) of a float that is not iterable)
+            b, x, t = self.expr(node.args[0].value, env)
+            if resolve(t) != ("list", "float"):
+                fail(node, "%s(*l) of a %s" % (node.func.id, show_type(t)))
+            v = self.fresh()
+            return b + ["do %s <- %s_list K %s ;;" % (v, of, x)], v, "float"
         (b1, x, t1), (b2, y, t2) = self.args1(node, env, 2)
         t1, t2 = resolve(t1), resolve(t2)
         if t1 == t2 == "int":
@@ -1173,6 +1350,14 @@ class FunTrans(object):
         if t == ("list", "float"):
             return b, "(gsum K %s)" % x, "float"
         fail(node, "sum() of a %s" % show_type(t))
+
+    def p_all(self, node, env):
+        (b, x, t), = self.args1(node, env)
+        if resolve(t) != ("list", "bool"):
+            fail(node, "%s() of a %s" % (node.func.id, show_type(t)))
+        return b, "(py_%s %s)" % (node.func.id, x), "bool"
+
+    p_any = p_all
 
     def p_bool(self, node, env):
         (b, x, t), = self.args1(node, env)
@@ -1370,12 +1555,69 @@ class FunTrans(object):
         if isinstance(tgt, ast.Tuple) and isinstance(s.value, ast.Tuple) and len(tgt.elts) == len(s.value.elts):
             return self.assign_display(tgt, s.value, s, rest, env, ctx, ind)
         value = s.value
+        c_ = value
+        if isinstance(tgt, ast.Name) and isinstance(c_, ast.Call) and isinstance(c_.func, ast.Attribute) and c_.func.attr == "get" \
+                and isinstance(c_.func.value, ast.Name) and c_.func.value.id == self.kwname and self.kwname not in env \
+                and len(c_.args) == 2 and not c_.keywords and isinstance(c_.args[0], ast.Constant) \
+                and c_.args[0].value in self.spec.get("static_kwargs", {}):
+            # flag = kwargs.get('k', default) for a static keyword: the literal this variant is specialised to
+            self.expr(c_, env)          # (checks the form)
+            value = ast.copy_location(ast.Constant(value=self.spec["static_kwargs"][c_.args[0].value]), c_)
+        con = self.construct_call(value, env)
+        if con is not None:
+            if not isinstance(tgt, ast.Name):
+                fail(s, "a new object must be assigned to a variable")
+            if s not in self.fdef.body:
+                fail(s, "a new object may only be created at the top level of the function body")
+            env = dict(env)
+            env[tgt.id] = ("building", con, ())
+            self.rebound = self.rebound | {tgt.id}
+            return self.block(rest, env, ctx, ind)
+        if isinstance(tgt, ast.Attribute) and isinstance(tgt.value, ast.Name) and tgt.value.id in env \
+                and isinstance(env[tgt.value.id], tuple) and env[tgt.value.id][0] == "building":
+            return self.set_attribute(tgt, value, s, rest, env, ctx, ind)
         if isinstance(tgt, ast.Name) and isinstance(value, ast.Tuple) and self.only_indexed(tgt.id):
             # d = (x, y) where d is bound once and only ever read as d[i]: a tuple is immutable, so the list of the same
             # elements behaves the same (indexing with IndexError); needed when i is not a literal
             value = ast.copy_location(ast.List(elts=value.elts, ctx=ast.Load()), value)
         b, x, t = self.expr(value, env)
         return self.assign_to(tgt, b, x, t, value, s, rest, env, ctx, ind)
+
+    # ---- the construction of a result object:  x = Mod.Class() ; x.attr = e ... ; return x
+    def construct_call(self, node, env):
+        """Mod.Class() for a class SPEC lists under "constructs" -> the record (object type) of the attributes that get assigned"""
+        if isinstance(node, ast.Call) and not node.args and not node.keywords and isinstance(node.func, ast.Attribute) \
+                and isinstance(node.func.value, ast.Name) and node.func.value.id not in env \
+                and node.func.value.id in self.m.imported_mods:
+            cname = "%s.%s" % (self.m.imported_mods[node.func.value.id], node.func.attr)
+            rec = self.spec.get("constructs", {}).get(cname)
+            if rec is not None:
+                self.obj_fields(rec, node)
+                return rec
+        return None
+
+    def set_attribute(self, tgt, value, s, rest, env, ctx, ind):
+        """x.attr = e on an object under construction: the value is recorded (evaluated here, in source order).  Trusted reading:
+        the object stores the value; what its setter does besides (validation, normalisation) is not part of the translation."""
+        name = tgt.value.id
+        if s not in self.fdef.body:
+            fail(s, "an attribute of a new object may only be assigned at the top level of the function body")
+        _, rec, vals = env[name]
+        fields = self.obj_fields(rec, s)
+        if tgt.attr not in fields:
+            fail(s, "the attribute %r is not in the spec of the object type %s" % (tgt.attr, rec))
+        if tgt.attr in [a for a, _ in vals]:
+            fail(s, "the attribute %s of the new object is assigned twice" % tgt.attr)
+        b, x, t = self.expr(value, env)
+        ft = parse_type(fields[tgt.attr])
+        if resolve(ft) == "float" and resolve(t) == "int":
+            x = self.coerce_float(x, t, s)
+        else:
+            unify(t, ft, s)
+        v = self.fresh()
+        env = dict(env)
+        env[name] = ("building", rec, vals + ((tgt.attr, v),))
+        return self.emit(b + ["let %s := %s in" % (v, x)], ind) + self.block(rest, env, ctx, ind)
 
     def only_indexed(self, name):
         """is `name` bound exactly once in the function and every read of it the container of an index expression name[i]?"""
@@ -1399,12 +1641,13 @@ class FunTrans(object):
 
     def roots_in_dict(self, node, env):
         """is the expression a part x['k'][i]... of a dict argument (or of a name already given to such a part)?"""
-        while isinstance(node, ast.Subscript) and not isinstance(node.slice, ast.Slice):
+        while (isinstance(node, ast.Subscript) and not isinstance(node.slice, ast.Slice)) or \
+                (isinstance(node, ast.Attribute) and isinstance(node.ctx, ast.Load)):
             node = node.value
         if not isinstance(node, ast.Name) or node.id not in env:
             return False
         t = resolve(env[node.id])
-        return node.id in self.readonly or (isinstance(t, tuple) and t[0] == "dict")
+        return node.id in self.readonly or (isinstance(t, tuple) and t[0] in ("dict", "obj"))
 
     def assign_display(self, tgt, value, s, rest, env, ctx, ind):
         """a, b = x, y : the right-hand side is evaluated completely, from left to right, then the targets are assigned
@@ -1445,7 +1688,7 @@ class FunTrans(object):
                 fail(s, "assignment of None")
             if name in self.readonly:
                 fail(s, "the name %s of a part of a dict argument is rebound" % name)
-            if isinstance(resolve(t), tuple) and resolve(t)[0] in ("list", "dict") and self.roots_in_dict(vnode, env):
+            if isinstance(resolve(t), tuple) and resolve(t)[0] in ("list", "dict", "obj") and self.roots_in_dict(vnode, env):
                 self.readonly.add(name)       # ctrlpts = datadict['control_points']: read-only from here on (check_mutable)
             env[name] = t
             self.rebound = self.rebound | {name}
@@ -1497,6 +1740,26 @@ class FunTrans(object):
                     return ["let %s := %s in" % (mangle(tgt2.id), x)]
                 self.no_alias(vnode, t)
                 return self.store(tgt2, x, t, vnode, env, s)
+            if sl.step is None and sl.lower is not None and sl.upper is not None:
+                # a[i][lo:hi] = fresh list : Python evaluates the right-hand side, then the container a[i], then the bounds; the
+                # container becomes  a[i][:lo] + value + a[i][max(lo, hi):]  (bounds clamped as in a slice): zslice_set
+                self.no_alias(vnode, t)
+                tgt2 = tgt.value
+                bc, cur, tc = self.expr(to_load(tgt2), env)
+                tc = resolve(tc)
+                if not (isinstance(tc, tuple) and tc[0] == "list"):
+                    fail(s, "slice assignment into a %s" % show_type(tc))
+                unify(tc, t, s)
+                b1, lo, t1 = self.expr(sl.lower, env)
+                b2, hi, t2 = self.expr(sl.upper, env)
+                if resolve(t1) != "int" or resolve(t2) != "int":
+                    fail(s, "slice bound is not an int")
+                new = "(zslice_set %s %s %s %s)" % (cur, lo, hi, x)
+                if isinstance(tgt2, ast.Name):
+                    self.check_mutable(tgt2.id, env, s)
+                    return bc + b1 + b2 + ["let %s := %s in" % (mangle(tgt2.id), new)]
+                fresh = ast.copy_location(ast.List(elts=[], ctx=ast.Load()), s)
+                return bc + b1 + b2 + self.store(tgt2, new, tc, fresh, env, s)
             fail(s, "slice assignment")
         self.no_alias(vnode, t)
         path = []
@@ -1585,7 +1848,21 @@ class FunTrans(object):
             t = unify(env[name], tg, s)
             unify(t, ctx.rtype, s)
             return self.emit(bg, ind) + [ind + ctx.ret("(%s ++ %s)" % (mangle(name), xg))]
-        b, x, t = self.expr(s.value, env)
+        rt0 = resolve(ctx.rtype)
+        if isinstance(v, ast.Name) and v.id in env and isinstance(env[v.id], tuple) and env[v.id][0] == "building":
+            _, rec, vals = env[v.id]
+            fields = self.obj_fields(rec, s)
+            got = dict(vals)
+            for a_ in fields:
+                if a_ not in got:
+                    fail(s, "the attribute %s of the returned object is never assigned" % a_)
+            unify(("obj", rec), ctx.rtype, s)
+            return [ind + ctx.ret("(mk_%s %s)" % (rec, " ".join(got[a_] for a_ in fields)))]
+        if isinstance(v, ast.List) and isinstance(rt0, tuple) and rt0[0] == "tuple" and len(v.elts) == len(rt0[1]) >= 2:
+            # return [a, b] where SPEC gives a tuple type: a fixed-length list of values of different types (callers index or
+            # unpack it) is the tuple of the same elements
+            v = ast.copy_location(ast.Tuple(elts=v.elts, ctx=ast.Load()), v)
+        b, x, t = self.expr(v, env)
         rt = resolve(ctx.rtype)
         if rt == "float" and resolve(t) == "int":
             x = self.coerce_float(x, t, s)
@@ -1705,6 +1982,13 @@ class FunTrans(object):
             b, truth = st
             live = s.body if truth else s.orelse
             return self.emit(b, ind) + self.block(list(live) + list(rest), env, ctx, ind)
+        sn = self.static_none_test(s.test, env)
+        if sn is not None:
+            # this variant is the call with None for that parameter: only one branch exists
+            live = s.body if sn else s.orelse
+            if always_terminates(live):
+                return self.block(list(live), env, ctx, ind)
+            return self.block(list(live) + list(rest), env, ctx, ind)
         if isinstance(s.test, ast.Name) and s.test.id in self.static_vals and s.test.id not in env:
             # this variant of the function is specialised to the value of the parameter: only one branch exists
             live = s.body if self.static_vals[s.test.id] else s.orelse
@@ -1718,9 +2002,15 @@ class FunTrans(object):
             if always_terminates(live):
                 return self.block(list(live), env, ctx, ind)
             return self.block(list(live) + list(rest), env, ctx, ind)
-        bc, c, tc = self.expr(s.test, env)
-        c = self.truth(c, tc, s)          # `if n:` on an int is `n != 0`
-        out = self.emit(bc, ind)
+        opt = self.optfloat_test(s.test, env)
+        if opt is not None:
+            # `if x is not None:` / `if x is None:` on a None-or-float value: a match; x is a float in the branch where it is not None
+            name, positive = opt
+            bc, c, out = [], None, []
+        else:
+            bc, c, tc = self.expr(s.test, env)
+            c = self.truth(c, tc, s)          # `if n:` on an int is `n != 0`
+            out = self.emit(bc, ind)
         tb, te = always_terminates(s.body), always_terminates(s.orelse)
         # `if name < c: return / raise` at the top level of the function: name >= c from here on
         t_ = s.test
@@ -1734,34 +2024,56 @@ class FunTrans(object):
             self.static_locals.pop(n, None)
         self.dyn_depth += 1
         try:
-            return self.s_If_dynamic(s, rest, env, ctx, ind, out, c, tb, te, newfact)
+            if opt is not None:
+                envf = dict(env); envf[name] = "float"
+                n_ = mangle(name)
+                some, none = ind + "| Some %s =>" % n_, ind + "| None =>"
+                shape = ([ind + "match %s with" % n_, some if positive else none], [none if positive else some], [ind + "end"],
+                         "match %s with" % n_, "end)", envf if positive else env, env if positive else envf)
+            else:
+                shape = ([ind + "if %s then" % c], [ind + "else"], [], "if %s then" % c, ")", env, env)
+            return self.s_If_dynamic(s, rest, env, ctx, ind, out, shape, tb, te, newfact)
         finally:
             self.dyn_depth -= 1
 
-    def s_If_dynamic(self, s, rest, env, ctx, ind, out, c, tb, te, newfact):
+    def optfloat_test(self, test, env):
+        """`x is not None` / `x is None` for a variable x that holds None or a float -> (x, is-not-None?) else None"""
+        if isinstance(test, ast.Compare) and len(test.ops) == 1 and isinstance(test.ops[0], (ast.Is, ast.IsNot)) \
+                and isinstance(test.comparators[0], ast.Constant) and test.comparators[0].value is None \
+                and isinstance(test.left, ast.Name) and test.left.id in env and resolve(env[test.left.id]) == "optfloat":
+            return test.left.id, isinstance(test.ops[0], ast.IsNot)
+        return None
+
+    def s_If_dynamic(self, s, rest, env, ctx, ind, out, shape, tb, te, newfact):
+        # shape: the lines that open the construct / separate the branches / close it, its opening and closing inside
+        # `do pat <- (...) ;;`, and the environments of the two branches (a match on a None-or-float variable rebinds it)
+        head, mid, tail, jopen, jclose, env_t, env_e = shape
         dead = Ctx(ctx.ret, lambda env2, ind2: fail(s, "internal: fall-through of a terminating block"), ctx.rtype)
         if tb and te:
             if rest:
                 fail(s, "code after an if whose branches both return")
-            return out + [ind + "if %s then" % c] + self.block(s.body, env, dead, ind + "  ") + \
-                [ind + "else"] + self.block(s.orelse, env, dead, ind + "  ")
+            return out + head + self.block(s.body, env_t, dead, ind + "  ") + \
+                mid + self.block(s.orelse, env_e, dead, ind + "  ") + tail
         if tb:
-            thenb = self.block(s.body, env, dead, ind + "  ")
+            thenb = self.block(s.body, env_t, dead, ind + "  ")
             if newfact is not None:
                 self.facts[newfact[0]] = newfact[1]
                 self.dyn_depth -= 1         # the rest of the function continues in the else branch, on every execution
                 try:
-                    elseb = self.block(list(s.orelse) + list(rest), env, ctx, ind + "  ")
+                    elseb = self.block(list(s.orelse) + list(rest), env_e, ctx, ind + "  ")
                 finally:
                     self.dyn_depth += 1
             else:
-                elseb = self.block(list(s.orelse) + list(rest), env, ctx, ind + "  ")
-            return out + [ind + "if %s then" % c] + thenb + [ind + "else"] + elseb
+                elseb = self.block(list(s.orelse) + list(rest), env_e, ctx, ind + "  ")
+            return out + head + thenb + mid + elseb + tail
         if te:
-            return out + [ind + "if %s then" % c] + self.block(list(s.body) + list(rest), env, ctx, ind + "  ") + \
-                [ind + "else"] + self.block(s.orelse, env, dead, ind + "  ")
+            return out + head + self.block(list(s.body) + list(rest), env_t, ctx, ind + "  ") + \
+                mid + self.block(s.orelse, env_e, dead, ind + "  ") + tail
         if contains(s.body + s.orelse, (ast.Return,)):
-            fail(s, "a branch that returns on some paths only")
+            # a branch that returns on some paths only: what follows the if is the continuation of BOTH branches
+            # (`if c: B` ; R  is  `if c: B ; R  else: R`)
+            return out + head + self.block(list(s.body) + list(rest), env_t, ctx, ind + "  ") + \
+                mid + self.block(list(s.orelse) + list(rest), env_e, ctx, ind + "  ") + tail
         # join: the variables assigned in a branch that are bound afterwards on both paths
         names = assigned_names(s.body + s.orelse)
         ends = []
@@ -1771,7 +2083,7 @@ class FunTrans(object):
             return []
         save, saver = self.counter, self.rebound
         pctx = Ctx(ctx.ret, probe, ctx.rtype)
-        self.block(s.body, env, pctx, ""); self.block(s.orelse, env, pctx, "")
+        self.block(s.body, env_t, pctx, ""); self.block(s.orelse, env_e, pctx, "")
         self.counter, self.rebound = save, saver
         e1, e2 = ends
         jn = [n for n in names if n in e1 and n in e2]
@@ -1780,13 +2092,16 @@ class FunTrans(object):
             jt[n] = unify(e1[n], e2[n], s)
         tup, pat = self.pat(jn)
         jctx = Ctx(ctx.ret, lambda env2, ind2: [ind2 + "GOk %s" % tup], ctx.rtype)
-        body = self.block(s.body, env, jctx, ind + "  ")
-        orelse = self.block(s.orelse, env, jctx, ind + "  ")
+        body = self.block(s.body, env_t, jctx, ind + "  ")
+        orelse = self.block(s.orelse, env_e, jctx, ind + "  ")
         env = dict(env)
         for n in jn:
             env[n] = jt[n]
         self.rebound = self.rebound | set(jn)
-        out += [ind + "do %s <- (if %s then" % (pat, c)] + body + [ind + "else"] + close(orelse, ") ;;")
+        if tail:
+            out += [ind + "do %s <- (%s" % (pat, jopen)] + head[1:] + body + mid + orelse + [ind + jclose + " ;;"]
+        else:
+            out += [ind + "do %s <- (%s" % (pat, jopen)] + body + mid + close(orelse, jclose + " ;;")
         return out + self.block(rest, env, ctx, ind)
 
     # ---- loops
@@ -1891,7 +2206,10 @@ class FunTrans(object):
             fail(s, "no fuel expression in the spec for this while loop")
         self.fuels_used.add(k)
         fuel = ast.parse(self.fuels[k], mode="eval").body
-        bf, fx, ft = self.expr(fuel, env)
+        fenv = dict(env)
+        for n in self.fuel_params:
+            fenv[n] = "int"
+        bf, fx, ft = self.expr(fuel, fenv)
         if bf or resolve(ft) != "int":
             fail(s, "fuel must be a pure int expression")
         state = self.loop_state(s.body, env)
@@ -2077,7 +2395,7 @@ class FunTrans(object):
             env[n] = t
         # the names of the records of the dict types (and of the self attributes) may not be used as variables
         taken = set()
-        for dname, fields in self.m.spec.get("dicts", {}).items():
+        for dname, fields in list(self.m.spec.get("dicts", {}).items()) + list(self.m.spec.get("objects", {}).items()):
             taken |= set([dname, "mk_" + dname] + ["%s_%s" % (dname, k) for k in fields])
         used = set(n.id for n in ast.walk(self.fdef) if isinstance(n, ast.Name)) | set(a.arg for a in ast.walk(self.fdef) if isinstance(a, ast.arg))
         if taken & used:
@@ -2094,6 +2412,10 @@ class FunTrans(object):
             if k not in self.kwdefaults:
                 fail(self.fdef, "keyword argument %s of the spec is never read" % k)
         coqname = self.spec["name"].replace(".", "_")        # Class.method -> Class_method
+        for k in sorted(self.spec.get("static_kwargs", {})):
+            if k not in getattr(self, "static_kw_read", set()):
+                fail(self.fdef, "static keyword %s of the spec is never read" % k)
+            coqname += "__%s_%s" % (k, str(self.spec["static_kwargs"][k]).lower())
         kworder = sorted(self.kwparams)
         lines = []
         for k in kworder:
@@ -2106,6 +2428,8 @@ class FunTrans(object):
         kargs = "".join(" (kw_%s : %s)" % (k, coq_type(self.kwparams[k])) for k in kworder)
         if self.spec.get("infinity_params", False):
             kargs += " (py_inf : T) (py_ninf : T)"
+        for n in self.fuel_params:
+            kargs += " (%s : Z)" % n
         abstract = []
         for cname in sorted(self.spec.get("abstract_calls", {})):
             a_ = self.spec["abstract_calls"][cname]
@@ -2132,6 +2456,9 @@ class FunTrans(object):
                 "kwnodefault": [k for k in kworder if self.kwdefaults[k] is None],
                 "defaults": defaults, "rtype": rt, "all_params": self.all_params, "static_defaults": self.static_defaults,
                 "abstract": abstract, "selfattrs": list(self.selfattrs),
+                "vararg": bool(self.fdef.args.vararg), "fuel_params": list(self.fuel_params),
+                "abstract_cnames": sorted(self.spec.get("abstract_calls", {})),
+                "abstract_spec": dict(self.spec.get("abstract_calls", {})),
                 "infinity": bool(self.spec.get("infinity_params", False)),
                 "fntype": ("fn", tuple(t for _, t in self.params) + tuple(self.kwparams[k] for k in kworder), rt)}
         return "\n".join(lines), info
@@ -2174,7 +2501,8 @@ def close(lines, suffix, newline=None):
     return lines
 
 
-PRIMITIVES = ("len", "abs", "float", "int", "round", "min", "max", "list", "tuple", "deepcopy", "sum", "bool", "sorted", "reduce", "__range_last__")
+PRIMITIVES = ("len", "abs", "float", "int", "round", "min", "max", "list", "tuple", "deepcopy", "sum", "bool", "sorted", "reduce", "__range_last__",
+              "all", "any")
 
 
 # ----------------------------------------------------------------------------------------------- modules
@@ -2342,6 +2670,14 @@ def translate_blocks(repo_root, spec):
                         tv.append(vinfo)
                     if tv:
                         info["tvariants"] = tv
+                    # "none_variants": the function called with None for some parameters (their default), as a further
+                    # generated function <name>__<suffix> without those parameters
+                    for var in fspec.get("none_variants", []):
+                        sub = dict(fspec, name=fspec["name"] + "__" + var["suffix"], none_params=list(var["none"]))
+                        sub["params"] = dict((k, v) for k, v in fspec["params"].items())
+                        sub.pop("none_variants"); sub.pop("type_variants", None)
+                        vtext, vinfo = FunTrans(mt, sub, mt.defs[fname]).translate()
+                        text += "\n" + vtext
                 mt.funcs[fname] = info
                 blocks.append((fname, text, None))
             except Untranslatable as e:
@@ -2357,11 +2693,13 @@ def translate_blocks(repo_root, spec):
 def records(mspec):
     """the dict types of SPEC ("dicts": name -> {key: type}) as Coq records (text that depends on SPEC only)"""
     out = []
-    for dname, fields in mspec.get("dicts", {}).items():
+    kinds = [(d, f, "dict type", "key") for d, f in mspec.get("dicts", {}).items()] + \
+            [(d, f, "object type", "attribute the translated functions read or assign") for d, f in mspec.get("objects", {}).items()]
+    for dname, fields, what, per in kinds:
         for k in fields:
             if not re.match(r"^[A-Za-z_][A-Za-z0-9_]*$", k):
                 raise Untranslatable("dict key %r is not an identifier" % k)
-        out.append("\n(* the dict type `%s` of SPEC: a record with one field per key *)" % dname)
+        out.append("\n(* the %s `%s` of SPEC: a record with one field per %s *)" % (what, dname, per))
         out.append("Record %s (T : Type) : Type := mk_%s {" % (dname, dname))
         out.append(";\n".join("  %s_%s : %s" % (dname, k, coq_type(parse_type(t))) for k, t in fields.items()))
         out.append("}.")
@@ -2455,7 +2793,7 @@ SPEC = {
     # compiled against them stays valid; later additions live in their own generated files ("pymodule" = the Python module
     # the functions are reported under by --check).
     "order": ["_linalg", "linalg", "knotvector", "helpers", "linalg/geom", "_voxelize", "utilities", "linalg/mat", "helpers/b", "fitting",
-              "helpers/c", "evaluators"],
+              "helpers/c", "evaluators", "compatibility", "_operations", "utilities/b", "fitting/b", "linalg/b", "linalg/c", "_voxelize/b"],
     "modules": {
         "_linalg": {"file": "geomdl/_linalg.py", "coq_module": "LinalgInternal", "imports": [], "functions": [
             {"name": "doolittle", "params": {"matrix_a": MAT}, "returns": "tuple[%s,%s]" % (MAT, MAT)},
@@ -2670,6 +3008,117 @@ SPEC = {
             {"name": "SurfaceEvaluator2.derivatives",
              "params": {"datadict": "dict:geomdata", "parpos": "list[float]", "deriv_order": "int"},
              "self_attrs": {"_span_func": FN_SPAN}, "returns": "list[%s]" % MAT, "alias_ok": True},
+        ]},
+        # ---- fourth round: geomdl/compatibility.py (C09 weights views, C13 layout) ------------------------------------------
+        # control points = lists of floats.  alias_ok (all): new_ctrlpts.append(temp) stores the list object `temp`, which is
+        # rebound to a new list at the start of the next iteration (temp[-1] = ... happens before the append, on an object
+        # nobody else holds); weights.append(ptw[-1]) stores a float.
+        # checked_div: a zero weight raises ZeroDivisionError <-> the model's Crash (Weights.separate_res / generate_ctrlpts_weights).
+        "compatibility": {"file": "geomdl/compatibility.py", "coq_module": "Compatibility", "requires": ["PreludeExt"],
+                          "imports": [], "functions": [
+            {"name": "flip_ctrlpts_u", "params": {"ctrlpts": MAT, "size_u": "int", "size_v": "int"}, "returns": MAT, "alias_ok": True},
+            {"name": "flip_ctrlpts", "params": {"ctrlpts": MAT, "size_u": "int", "size_v": "int"}, "returns": MAT, "alias_ok": True},
+            {"name": "flip_ctrlpts2d", "params": {"ctrlpts2d": "list[%s]" % MAT, "size_u": "int", "size_v": "int"},
+             "returns": "list[%s]" % MAT},
+            {"name": "generate_ctrlptsw", "params": {"ctrlpts": MAT}, "returns": MAT, "alias_ok": True},
+            {"name": "generate_ctrlptsw2d", "params": {"ctrlpts2d": "list[%s]" % MAT}, "returns": "list[%s]" % MAT, "alias_ok": True},
+            {"name": "generate_ctrlpts_weights", "params": {"ctrlpts": MAT}, "returns": MAT, "alias_ok": True, "checked_div": True},
+            {"name": "generate_ctrlpts2d_weights", "params": {"ctrlpts2d": "list[%s]" % MAT}, "returns": "list[%s]" % MAT,
+             "alias_ok": True, "checked_div": True},
+            # none_variants: weights=None (the default) is its own generated function combine_ctrlpts_weights__weights_none
+            # without that parameter (`weights is None` is then true until weights is assigned)
+            {"name": "combine_ctrlpts_weights", "params": {"ctrlpts": MAT, "weights": "list[float]"}, "returns": MAT, "alias_ok": True,
+             "none_variants": [{"suffix": "weights_none", "none": ["weights"]}]},
+            # the result [ctrlpts, weights] is a two-element list of different types: a pair here
+            {"name": "separate_ctrlpts_weights", "params": {"ctrlptsw": MAT}, "returns": "tuple[%s,list[float]]" % MAT,
+             "alias_ok": True, "checked_div": True},
+        ]},
+        # ---- fourth round, stage 2: geomdl/_operations.py (C20), utilities.check_params
+        # "objects": curve / surf are geomdl objects of which only the listed attributes are read; they are records here.
+        # Trusted reading: an attribute read has no effect and returns the value of the field (the tie theorems relate the fields to
+        # the model's arguments: ctrlpts2d is the [u][v] view of the flat control point list).
+        # alias_ok: curve_ctrlpts[i] = curve.ctrlpts[idx + i] etc. store points of the argument under second names; no point is
+        # updated in place (only the slots of the fresh result lists are replaced); surf_ctrlpts[k] = temp stores the list temp,
+        # which is rebound to a new list at the start of the next iteration.
+        "_operations": {"file": "geomdl/_operations.py", "coq_module": "OperationsInternal", "requires": ["PreludeExt"],
+                        "imports": ["linalg", "helpers"],
+                        "objects": {"curveobj": {"degree": "int", "knotvector": "list[float]", "ctrlpts": MAT},
+                                    "surfobj": {"degree_u": "int", "degree_v": "int", "knotvector_u": "list[float]",
+                                                "knotvector_v": "list[float]", "ctrlpts_size_u": "int", "ctrlpts_size_v": "int",
+                                                "ctrlpts2d": "list[%s]" % MAT}},
+                        "functions": [
+            {"name": "find_ctrlpts_curve", "params": {"t": "float", "curve": "obj:curveobj"}, "kwargs": {"find_span_func": FN_SPAN},
+             "returns": MAT, "alias_ok": True},
+            {"name": "find_ctrlpts_surface", "params": {"t_u": "float", "t_v": "float", "surf": "obj:surfobj"},
+             "kwargs": {"find_span_func": FN_SPAN}, "returns": "list[%s]" % MAT, "alias_ok": True},
+        ]},
+        # ---- fourth round, stage 3: geomdl/fitting.py, second part (C11)
+        "fitting/b": {"file": "geomdl/fitting.py", "pymodule": "fitting", "coq_module": "FittingB", "requires": ["PreludeExt", "PreludeExt2"],
+                      "imports": ["linalg", "helpers", "fitting"],
+                      "objects": {"curvedata": {"degree": "int", "ctrlpts": MAT, "knotvector": "list[float]"},
+                                  "surfdata": {"degree_u": "int", "degree_v": "int", "ctrlpts_size_u": "int", "ctrlpts_size_v": "int",
+                                               "ctrlpts": MAT, "knotvector_u": "list[float]", "knotvector_v": "list[float]"}},
+                      "functions": [
+            # matrix_a[i][span-degree:span+1] = basis_function(...): a slice assignment (zslice_set); `points` only gives the size
+            {"name": "_build_coeff_matrix",
+             "params": {"degree": "int", "knotvector": "list[float]", "params": "list[float]", "points": MAT}, "returns": MAT},
+            # static_kwargs: the specialisation to centripetal = False (the keyword's default; the other value needs math.sqrt).
+            # abstract_calls: linalg.point_distance, the uninterpreted callee of compute_params_curve, is the parameter `dist`.
+            # constructs: curve = BSpline.Curve(); curve.degree = ..; curve.ctrlpts = ..; curve.knotvector = ..; return curve  is the record
+            # curvedata of the values assigned (TRUSTED READING: the new object stores them; the validation / normalisation the setters of
+            # BSpline.Curve perform is not part of the translation).
+            {"name": "interpolate_curve", "params": {"points": MAT, "degree": "int"}, "static_kwargs": {"centripetal": False},
+             "returns": "obj:curvedata", "constructs": {"BSpline.Curve": "curvedata"},
+             "abstract_calls": {"linalg.point_distance": {"param": "dist", "type": "fn(list[float],list[float])->float"}}},
+            # static / abstract_calls as compute_params_curve, which it calls for every row and column of the data.
+            # alias_ok: pts_u = [points[...] for ...] gives points of the argument second names; no point is ever updated in place
+            # (the only in-place updates are uk[u] = float, vl[v] = float on fresh lists of floats and the += of fresh lists)
+            {"name": "compute_params_surface", "params": {"points": MAT, "size_u": "int", "size_v": "int"}, "static": {"centripetal": [False]},
+             "returns": "tuple[list[float],list[float]]", "alias_ok": True,
+             "abstract_calls": {"linalg.point_distance": {"param": "dist", "type": "fn(list[float],list[float])->float"}}},
+            {"name": "interpolate_surface",
+             "params": {"points": MAT, "size_u": "int", "size_v": "int", "degree_u": "int", "degree_v": "int"},
+             "static_kwargs": {"centripetal": False}, "returns": "obj:surfdata", "constructs": {"BSpline.Surface": "surfdata"}, "alias_ok": True,
+             "abstract_calls": {"linalg.point_distance": {"param": "dist", "type": "fn(list[float],list[float])->float"}}},
+        ]},
+        # ---- fourth round, stage 4: geomdl/linalg.py leftovers (C16)
+        "linalg/b": {"file": "geomdl/linalg.py", "pymodule": "linalg", "coq_module": "LinalgB", "requires": ["PreludeExt", "PreludeExt2"],
+                     "imports": ["linalg"], "functions": [
+            # static: normalize = False only (True calls vector_normalize: a square root)
+            {"name": "vector_generate", "params": {"start_pt": "list[float]", "end_pt": "list[float]"}, "static": {"normalize": [False]},
+             "returns": "list[float]"},
+            {"name": "point_translate", "params": {"point_in": "list[float]", "vector_in": "list[float]"}, "returns": "list[float]"},
+            {"name": "point_mid", "params": {"pt1": "list[float]", "pt2": "list[float]"}, "returns": "list[float]"},
+            # abstract_calls: math.sqrt is not a field operation; it is the uninterpreted parameter py_sqrt of the generated functions
+            # (the tie theorems hold for every such function; vector_normalize's needs 0 < sqrt x <-> 0 < x at the squared magnitude)
+            {"name": "vector_magnitude", "params": {"vector_in": "list[float]"}, "returns": "float", "abstract_calls": {"math.sqrt": {"param": "py_sqrt", "type": "fn(float)->float"}}},
+            {"name": "point_distance", "params": {"pt1": "list[float]", "pt2": "list[float]"}, "returns": "float", "abstract_calls": {"math.sqrt": {"param": "py_sqrt", "type": "fn(float)->float"}}},
+            {"name": "vector_normalize", "params": {"vector_in": "list[float]", "decimals": "int"}, "returns": "list[float]", "abstract_calls": {"math.sqrt": {"param": "py_sqrt", "type": "fn(float)->float"}}},
+            {"name": "vector_is_zero", "params": {"vector_in": "list[float]", "tol": "float"}, "returns": "bool"},
+            # vararg: vector_mean(*args) - the tuple of the vectors is the one list parameter args
+            {"name": "vector_mean", "params": {"args": MAT}, "vararg": "args", "returns": "list[float]"},
+            {"name": "matrix_scalar", "params": {"m": MAT, "sc": "float"}, "returns": MAT},
+        ]},
+        # ---- fourth round, stage 5: linalg.frange and _voxelize.generate_voxel_grid (C20)
+        # generator: frange yields its values; the generated function returns the list of them (what list(frange(..)) is).
+        # fuel_params: the number of passes of `while x + epsilon < stop` is not bounded by an int expression of the source; the generated
+        # function takes the bound as the extra parameter py_fuel (GErr OutOfFuel when it is exceeded), like the model's `fuel`.
+        "linalg/c": {"file": "geomdl/linalg.py", "pymodule": "linalg", "coq_module": "LinalgC", "requires": ["PreludeExt", "PreludeExt2"],
+                     "imports": ["linalg"], "functions": [
+            {"name": "frange", "params": {"start": "float", "stop": "float", "step": "float"}, "returns": "list[float]",
+             "generator": True, "fuel_params": ["py_fuel"], "fuel": ["py_fuel"]},
+        ]},
+        # alias_ok: voxel_grid.append([bbmin, bbmax]) stores the lists bbmin / bbmax, which are rebound to new lists in the next iteration
+        # and never updated in place.  fuel_params: passed on to linalg.frange.
+        "_voxelize/b": {"file": "geomdl/_voxelize.py", "pymodule": "_voxelize", "coq_module": "VoxelizeB", "requires": ["PreludeExt", "PreludeExt2"],
+                        "imports": ["linalg", "linalg/c"], "functions": [
+            {"name": "generate_voxel_grid", "params": {"bbox": MAT, "szval": "list[int]", "use_cubes": "bool"},
+             "returns": "list[%s]" % MAT, "alias_ok": True, "fuel_params": ["py_fuel"]},
+        ]},
+        "utilities/b": {"file": "geomdl/utilities.py", "pymodule": "utilities", "coq_module": "UtilitiesB", "requires": ["PreludeExt"],
+                        "imports": [], "functions": [
+            # the parameters may be None (a direction that is not given): slots of type optfloat
+            {"name": "check_params", "params": {"params": "list[optfloat]"}, "returns": "bool"},
         ]},
         "utilities": {"file": "geomdl/utilities.py", "coq_module": "Utilities", "requires": ["PreludeExt"],
                       "imports": [], "functions": [
